@@ -17,6 +17,8 @@ KANI = [dict(package="datafusion-common", module=M, harnesses=[
     dict(name="c42_transform_down_tree4_bounded", complete=False, bound="one 4-node tree, all 3^4 x 2^4 vectors", what="real TreeNode::transform_down: rewritten tree == exactly the callback's replacements; changed flag <=> some replacement"),
     dict(name="c42_transform_down_up_tree4_bounded", complete=False, bound="one 4-node tree, all 3^8 x 2^8 down/up decision and change vectors", what="real TreeNode::transform_down_up (handle_transform_recursion!) == independent reference: callback order, tree, changed flag, final state"),
     dict(name="c42_rewrite_tree4_bounded", complete=False, bound="one 4-node tree, all 3^8 x 2^8 vectors", what="real TreeNode::rewrite with a TreeNodeRewriter == the same reference"),
+    dict(name="c42_containers_apply_bounded", complete=False, bound="container (Vec of 2, Option, Box) = 4 leaves, all 3^4 decision vectors", what="TreeNodeContainer::apply_elements for Vec / Option / Box / 3-tuple: siblings in order until the first Stop, result = last decision"),
+    dict(name="c42_containers_map_bounded", complete=False, bound="same container, all 3^4 x 2^4 vectors", what="TreeNodeContainer::map_elements for Vec / Option / Box / 3-tuple: in order, stops at Stop, exactly the replacements, changed flag = OR, result = last decision"),
     dict(name="c42_transform_up_tree4_bounded", complete=False, bound="one 4-node tree, all 3^4 x 2^4 vectors", what="real TreeNode::transform_up (post-order, Jump skips ancestors) == reference"),
 ])]
 TRUSTED = ["Kani 0.68 / CBMC 6.11 soundness", "Rust std Vec/iterator code is executed by CBMC as compiled MIR (not stubbed)"]
@@ -25,5 +27,5 @@ ASSUMPTIONS = [
     "the induction from the combinator contracts (complete) to trees of arbitrary size is a paper argument; whole-tree harnesses are bounded to one 4-node tree",
     "Expr/LogicalPlan/ExecutionPlan map_children implementations are not covered",
 ]
-NOT_COVERED = ["TreeNodeContainer impls for tuples/maps/Option/Box/Arc (the in-crate TestTreeNode path)", "concrete node types (Expr, LogicalPlan, ExecutionPlan)", "trees other than the one 4-node shape"]
+NOT_COVERED = ["TreeNodeContainer impls for HashMap, Arc, 2- and 4-tuples, TreeNodeRefContainer", "concrete node types (Expr, LogicalPlan, ExecutionPlan)", "trees other than the one 4-node shape"]
 EXPLANATION = "Complete proofs for the loop-free control combinators every traversal is built from; bounded whole-tree checks of the real generic default methods."
